@@ -254,4 +254,57 @@ theorem riterate_eq (v : Bits) : riterate v = .ok (Ref.setPositions v).reverse :
     rw [hl] at this
     simpa using this
 
+/-! ## decrement operators -/
+
+/-- `--` of the forward iterator from any position `c ≤ size` (a set position or `end()`):
+    the greatest set position below `c`, or `end()` (= `size`) when there is none -/
+theorem fwdDec_spec (v : Bits) (c : Nat) (hc : c ≤ v.length) :
+    ∃ q : Nat, fwdDec v (c : Int) = .ok (q : Int) ∧
+      ((q < c ∧ v.getD q false = true ∧ ∀ j, q < j → j < c → v.getD j false = false) ∨
+       (q = v.length ∧ ∀ j, j < c → v.getD j false = false)) := by
+  obtain ⟨r, g1, g2, g3, g4⟩ := reverse_spec v c hc
+  unfold fwdDec
+  rw [g1]
+  by_cases h0 : r = 0
+  · subst h0
+    refine ⟨v.length, ?_, Or.inr ⟨rfl, fun j hj => g3 j (by omega) hj⟩⟩
+    simp
+  · refine ⟨r - 1, ?_, Or.inl ⟨by omega, g4 (by omega), fun j h1 h2 => g3 j (by omega) h2⟩⟩
+    simp only
+    rw [if_neg (by omega)]
+    congr 1; omega
+
+/-- `--` of the reverse iterator from a position `c < size`: the least set position above `c`,
+    or `rend()` (= -1) when there is none -/
+theorem revDec_spec (v : Bits) (c : Nat) (hc : c < v.length) :
+    (∃ q : Nat, revDec v (c : Int) = .ok (q : Int) ∧ c < q ∧ q < v.length ∧ v.getD q false = true ∧
+        ∀ j, c < j → j < q → v.getD j false = false) ∨
+    (revDec v (c : Int) = .ok (-1) ∧ ∀ j, c < j → j < v.length → v.getD j false = false) := by
+  obtain ⟨q, g1, g2, g3, g4, g5⟩ := forward_spec v c hc
+  unfold revDec
+  rw [g1]
+  by_cases hq : q < v.length
+  · refine Or.inl ⟨q, ?_, g2, hq, g5 hq, g4⟩
+    simp only
+    rw [if_neg (by omega)]
+  · refine Or.inr ⟨?_, fun j h1 h2 => g4 j h1 (by omega)⟩
+    simp only
+    rw [if_pos (by omega)]
+
+/-- `--rend()` stays at `rend()`: `forward()` returns at once for the position -1 -/
+theorem revDec_rend (v : Bits) : revDec v (rendIt v) = .ok (rendIt v) := by
+  unfold revDec forward rendIt
+  rw [if_pos (Or.inl (by omega))]
+  simp only
+  rw [if_neg (by omega)]
+
+/-- `++end()` stays at `end()`, `++rend()` at `rend()` -/
+theorem forward_end (v : Bits) : forward v (endIt v) = .ok (endIt v) := by
+  unfold forward endIt
+  rw [if_pos (Or.inr (by omega))]
+
+theorem reverse_rend (v : Bits) : reverse v (rendIt v) = .ok (rendIt v) := by
+  unfold reverse rendIt
+  rw [if_pos (by omega)]
+
 end CelmaVerif.DynBitset
